@@ -579,7 +579,7 @@ pub fn run(kv: &Args) -> i32 {
     let labels = [0usize, 1, 32, 1024];
     let sps_ok = [None, Some(128), Some(129), Some(200), Some(256)];
     let sps_bad = [Some(0usize), Some(127), Some(257), Some(65536)];
-    let n_ok = kv.u64("cases", if thorough { 110 } else { 10 }) as usize;   // per curve
+    let n_ok = kv.u64("cases", if thorough { 110 } else { 12 }) as usize;   // per curve
     let mut cases = vec![];
     for i in 0..n_ok {
         cases.push(Case {
